@@ -190,11 +190,35 @@ def zseek_fwd(n: int, total: int, before: int, pos: int, c: int, u: int, t: int,
 
 def zseek_rel_back(n: int, total: int, before: int, pos: int, c: int, u: int, t: int, tape: List[int]) -> bool:
     """
-    seek(t, 1) with t < 0; invariant afterwards.
+    seek(t, 1) with t < 0 landing strictly inside (0, pos); invariant afterwards.
     pre: 0 <= n <= 200000 and 2 <= total <= 2000000 and 0 <= before <= 2
     pre: 0 <= pos and 0 <= c and 0 <= u <= 524288
-    pre: -200010 <= t < 0
+    pre: -200010 <= t < 0 and pos + t > 0
     pre: len(tape) <= 5
+    post: _
+    """
+    return _zseek('check', n, total, before, pos, c, u, t, 1, -1, tape)
+
+
+def zseek_rel_zero(n: int, total: int, before: int, pos: int, c: int, u: int, t: int, a: int, tape: List[int]) -> bool:
+    """
+    seek(t, 1) with t < 0 landing exactly on 0 (rewind), then read(a).
+    pre: 0 <= n <= 2000000 and 2 <= total <= 2000000 and 0 <= before <= 2
+    pre: 0 <= pos and 0 <= c and 0 <= u <= 524288
+    pre: -2000010 <= t < 0 and pos + t == 0 and 0 <= a <= 600000
+    pre: len(tape) <= 5
+    post: _
+    """
+    return _zseek('check', n, total, before, pos, c, u, t, 1, a, tape)
+
+
+def zseek_rel_neg(n: int, total: int, before: int, pos: int, c: int, u: int, t: int, tape: List[int]) -> bool:
+    """
+    seek(t, 1) landing before the start: rejected with the position (and the whole stream state) unchanged.
+    pre: 0 <= n <= 2000000 and 2 <= total <= 2000000 and 0 <= before <= 2
+    pre: 0 <= pos and 0 <= c and 0 <= u <= 524288
+    pre: -2000010 <= t < 0 and -3 <= pos + t < 0
+    pre: len(tape) <= 2
     post: _
     """
     return _zseek('check', n, total, before, pos, c, u, t, 1, -1, tape)
